@@ -268,6 +268,8 @@ class Cohort:
 
     def case_json(self, extra=None):
         c = {"pop": {k: v for k, v in self.pop.items() if k != "mixing"}, "ips": self.ips, "ages": self.ages, "tag": self.tag}
+        if getattr(self, "history", None):
+            c["history"] = self.history
         if extra:
             c.update(extra)
         return c
@@ -607,6 +609,9 @@ def reuse_same_object(env, chk, co, rng, lines, pending):
     pop2 = pop_of_model(fresh)
     if pop2 is None:
         return
+    # what is needed to replay: the object was first loaded with these settings and used, then its parameters were replaced
+    co.history = {"first_pop": {k: v for k, v in co.pop.items() if k != "mixing"}, "first_ips": dict(co.ips), "first_ages": dict(co.ages),
+                  "new_parameters": st2["parameters"]}
     co.pop = pop2
     co.tag = str(co.tag) + "+parameters-replaced-in-place"
     for sid in list(co.ips):
@@ -710,7 +715,40 @@ def replay(chk: core.Check, payload):
         P["betas_mean"] = pop["betas"]
     st = {"leaspy_version": "2.0.0-dev", "name": kind, "features": pop["features"], "dimension": d,
           "obs_models": {"y": "gaussian-diagonal" if d > 1 else "gaussian-scalar"}, "parameters": P, "source_dimension": ns}
-    if case.get("tag", "random") != "random":
+    hist = case.get("history")
+    if hist:
+        # same object, used once with its first parameters, then parameters replaced in place
+        fp = hist["first_pop"]
+        case1 = {"pop": fp, "ips": hist["first_ips"], "ages": hist["first_ages"], "tag": "random"}
+        P1 = {"tau_mean": [70.0], "tau_std": [5.0], "xi_std": [0.5], "noise_std": [0.1] * d if d > 1 else 0.1}
+        if kind == "logistic":
+            P1["log_g_mean"], P1["log_v0_mean"] = fp["log_g"], fp["log_v0"]
+        elif kind == "linear":
+            P1["g_mean"], P1["log_v0_mean"] = fp["g"], fp["log_v0"]
+        else:
+            P1["log_g_mean"], P1["deltas_mean"], P1["xi_mean"] = [fp["log_g"]], fp["deltas"], [0.0]
+        if ns:
+            P1["betas_mean"] = fp["betas"]
+        co = build_cohort(env, chk, chk.rng, settings=dict(st, parameters=P1))
+        if co is None:
+            return
+        co.ips, co.ages = case1["ips"], case1["ages"]
+        lines, pending = [], []
+        process(chk, co, chk.rng, lines, pending)
+        try:
+            with core.quiet():
+                co.model.load_parameters(dict(hist["new_parameters"]))
+                fresh = env["BaseModel"].load(dict(st, parameters=hist["new_parameters"]))
+        except Exception as e:  # noqa
+            chk.impl_failure(case, f"replacing the parameters in place raised {err_class(e, env)}: {e}")
+            return
+        co.pop = pop_of_model(fresh)
+        co.tag = "random+parameters-replaced-in-place"
+        co.ips, co.ages = case["ips"], case["ages"]
+        process(chk, co, chk.rng, lines, pending)
+        compare(chk, lines, pending)
+        return
+    if case.get("tag", "random") != "random" and not str(case.get("tag")).startswith("random"):
         co = build_cohort(env, chk, chk.rng, path=str(core.REPO / "tests/_data/model_parameters" / case["tag"]))
     else:
         co = build_cohort(env, chk, chk.rng, settings=st)
